@@ -39,14 +39,16 @@ def _worker(args):
     mod = importlib.import_module(modname)
     t0 = time.time()
     signal.signal(signal.SIGALRM, _alarm)
-    signal.setitimer(signal.ITIMER_REAL, float(limit), 5.0)
+    signal.setitimer(signal.ITIMER_REAL, float(limit) + 30.0, 5.0)
+    symex.DEADLINE = time.time() + float(limit)      # cooperative check at every branch / solver query; the timer is the fallback
     try:
         try:
             res = mod.run_config(cfg)
         finally:
             signal.setitimer(signal.ITIMER_REAL, 0)     # first thing on the way out: no further ticks
+            symex.DEADLINE = None
         res.setdefault('inconclusive', [])
-    except _Timeout:
+    except (_Timeout, symex.DeadlineExceeded):
         res = {'inconclusive': ['time limit %ds exceeded' % limit]}
     except symex.Inconclusive as e:
         res = {'inconclusive': ['%s: %s' % (type(e).__name__, e)]}
@@ -124,7 +126,7 @@ def main(argv=None):
     cfgs = mod.configs(args.tier, seed)
     if args.only:
         cfgs = [c for c in cfgs if args.only in c.get('name', '')]
-    limit = getattr(mod, 'CONFIG_TIME_LIMIT', {}).get(args.tier, 600)
+    limit = int(os.environ.get('VERIF_CONFIG_LIMIT', getattr(mod, 'CONFIG_TIME_LIMIT', {}).get(args.tier, 600)))
     jobs = [(modname, c, limit) for c in cfgs]
     results = []
     if args.procs > 1 and len(jobs) > 1:
